@@ -24,6 +24,7 @@ META = {
                      "ciborium Value data model (the decoder's input has no memory of its encoding)"],
 }
 META["decides"] += ' (As built: list-valued fields are decided on the sequence the arm contributes, however it is spelled; the decoded value is written only by the per-entry dispatch - nothing sorts or rewrites a field outside the loop; a header in protected position goes through the same decoder and is rejected for nothing else.)'
+META["decides"] += ' Also under R-1: the duplicate rule of this decoder, read_to_value hands on the parsed item, no decoding error is swallowed by any caller on the way up, every entry is dispatched, derived Default / PartialEq / Eq.'
 
 DEC = "header::Header::from_cbor_value_depth"
 RESULT = "header::Header"
